@@ -1,0 +1,36 @@
+//go:build verif
+
+// Contracts for the deductive checks under /verif (comment-only; no code).
+
+package merkledag
+
+// ---- abstract view of a ProtoNode's link list used by clients (ipld/unixfs/io)
+// linkBytes(n): sum over n's links of the serialized PBNode.Links entry size
+// namedBytes(n, name): the same sum restricted to links with that name (0 iff there is none)
+//@ ghost linkBytes(n *ProtoNode) int
+//@ ghost namedBytes(n *ProtoNode, name string) int
+//@ spec linkEntryBytes(nameLen int, c cid.Cid, tsize uint64) int
+
+//@ func (*ProtoNode).AddRawLink
+//@   assumed
+//@   modifies fields(n), linkBytes(n), namedBytes(n, name)
+//@   ensures[added] err == nil ==> linkBytes(n) == old(linkBytes(n)) + linkEntryBytes(len(name), l.Cid, l.Size)
+//@   ensures[named] err == nil ==> namedBytes(n, name) == old(namedBytes(n, name)) + linkEntryBytes(len(name), l.Cid, l.Size)
+//@   ensures[failed] err != nil ==> linkBytes(n) == old(linkBytes(n)) && namedBytes(n, name) == old(namedBytes(n, name))
+
+//@ func (*ProtoNode).GetNodeLink
+//@   assumed
+//@   ensures[found] err == nil ==> result0 != nil && namedBytes(n, name) > 0
+//@   ensures[unique] err == nil ==> namedBytes(n, name) == linkEntryBytes(len(name), result0.Cid, result0.Size)
+//@   ensures[notfound] err != nil ==> err == ErrLinkNotFound && namedBytes(n, name) == 0
+
+//@ func (*ProtoNode).RemoveNodeLink
+//@   assumed
+//@   modifies fields(n), linkBytes(n), namedBytes(n, name)
+//@   ensures[removed] err == nil ==> linkBytes(n) == old(linkBytes(n)) - old(namedBytes(n, name)) && namedBytes(n, name) == 0
+//@   ensures[present] old(namedBytes(n, name)) > 0 ==> err == nil
+//@   ensures[failed] err != nil ==> linkBytes(n) == old(linkBytes(n)) && namedBytes(n, name) == old(namedBytes(n, name))
+
+//@ func (*ProtoNode).Links
+//@   assumed
+//@   modifies fields(n)
